@@ -9,8 +9,11 @@ package main
 //     callObject), deferred calls, closures around them — in cycles of one to three functions,
 //     bounded (depths around the end of the frame array) and unbounded, on the main goroutine,
 //     under risor.Call, on spawned threads.  Model: Lean `nestRun` (Model.lean 4c) under `enter`;
-//     the fixed frame array must end every such recursion with the recoverable index panic —
-//     except recursion through `defer` alone (finding C03-defer-recursion-stack-overflow).
+//     the fixed frame array must end every such recursion with the recoverable index panic, or
+//     callFunction's nesting counter (vm.callDepth) with the returned error `max call depth of
+//     1024 exceeded` — whichever the model says comes first; recursion through `defer` alone
+//     never grows the frame index and is ended by the counter (the repaired finding
+//     C03-defer-recursion-stack-overflow: a process death here is an unlisted violation again).
 //
 //  2. importers: sequences of Import calls on the real LocalImporter / FSImporter with module
 //     files that are missing, do not parse, do not compile, compile — rewritten between calls,
@@ -73,7 +76,7 @@ type c03Rec struct {
 	entry     string
 	src, text string
 	ops       string // model request (segments)
-	pureDefer bool   // every link is `defer` on the callee itself: the recursion never claims a second frame
+	pureDefer bool   // every link is `defer` on the callee itself: the recursion never claims a second frame (only vm.callDepth ends it)
 }
 
 var c03RecEntries = []string{"run", "run", "run", "spawn-wait", "go", "call-entry", "each-at-top"}
@@ -109,6 +112,13 @@ func c03GenRec(r *RNG) c03Rec {
 		// callOp and callback claim a frame each; exitDefers + deferred release one and claim it again
 		perRound += strings.Count(c03Links[k].ops, "call")
 	}
+	// callFunction activations opened per round: every link's enters except none (each of them
+	// goes through callFunction); with a deferred link in the cycle this count grows faster than
+	// the frame index and vm.callDepth (1024) ends the recursion before the frame array does
+	callsPerRound := perRound
+	for _, k := range rc.links {
+		callsPerRound += strings.Count(c03Links[k].ops, "deferred")
+	}
 	switch r.Intn(10) {
 	case 0, 1, 2, 3:
 		rc.depth = -1
@@ -116,8 +126,13 @@ func c03GenRec(r *RNG) c03Rec {
 		rc.depth = 1 + r.Intn(40)
 	case 5, 6, 7:
 		// around the depth at which the frame array ends (1023 activations above the main code)
+		// or, when the cycle has a deferred link, around the depth at which the 1024th
+		// callFunction activation would be opened
 		per := max(perRound, 1)
 		rc.depth = max(1, 1023*n/per+r.Intn(9)-4)
+		if callsPerRound > perRound && r.Chance(70) {
+			rc.depth = max(1, 1024*n/callsPerRound+r.Intn(9)-4)
+		}
 	default:
 		rc.depth = 1200 + r.Intn(1800)
 	}
@@ -228,12 +243,27 @@ var c03RecDirected = []struct{ name, src, entry, observe, ops string }{
 	{"defer-self-on-thread", "func w(x) { defer w(x+1) }\nspawn(w, 0).wait()", "thread", "raise", "hostCall*1;exitDefers,deferred*5001"},
 	{"defer-then-call", "func a(x) { defer b(x) }\nfunc b(x) { a(x+1) }\na(0)", "run", "raise", "callOp*1;exitDefers,deferred,callOp*5001"},
 	{"defer-in-loop", "func a(x) { defer len([x]) \n return x }\nfor i := range 3000 { a(i) }\n7", "run", "raise", "callOp,exitDefers,defersDone*3000"},
+	// recursion through defer alone to a depth just below / at the call-depth limit: w(1023) opens
+	// 1024 callFunction activations (allowed), w(1024) would open a 1025th
+	{"defer-depth-1023", "func w(n) { if n <= 0 { return 0 }\n defer w(n-1) }\nw(1023)", "run", "raise", "callOp*1;exitDefers,deferred*1023"},
+	{"defer-depth-1024", "func w(n) { if n <= 0 { return 0 }\n defer w(n-1) }\nw(1024)", "run", "raise", "callOp*1;exitDefers,deferred*1024"},
+	{"defer-depth-1023-on-thread", "func w(n) { if n <= 0 { return 0 }\n defer w(n-1) }\nspawn(w, 1023).wait()", "thread", "raise", "hostCall*1;exitDefers,deferred*1023"},
+	{"defer-depth-1024-on-thread", "func w(n) { if n <= 0 { return 0 }\n defer w(n-1) }\nspawn(w, 1024).wait()", "thread", "raise", "hostCall*1;exitDefers,deferred*1024"},
+	// the counter is lowered on the error path as well: a recursion through defer to depth 1000 ends
+	// with a raised error that try swallows, then the same VM runs one to the allowed depth 1023
+	{"defer-error-then-allowed", "func e(n) { if n <= 0 { error(\"boom\") }\n defer e(n-1) }\nfunc w(n) { if n <= 0 { return 0 }\n defer w(n-1) }\ntry(func() { e(1000) })\nw(1023)", "run", "raise",
+		"callback*1;callOp*1;exitDefers,deferred*1000;leave*1;defersDone*1000;leave*1;callOp*1;exitDefers,deferred*1023"},
+	// deep but legitimate programs the call-depth limit must leave alone
+	{"legit-chain-1000", "func f(n) { if n <= 0 { return 0 }\n return 1 + f(n-1) }\nf(1000)", "run", "raise", "callOp*1001;leave*1001"},
+	{"legit-2000-defers-in-one-frame", "func g(x) { return x }\nfunc f() { for i := range 2000 { defer g(i) }\n return 1 }\nf()", "run", "raise", "callOp*1;exitDefers*1;deferred,leave*2000;defersDone*1"},
+	{"legit-defer-inside-recursion-900", "func g(x) { return x }\nfunc f(n) { defer g(n)\n if n <= 0 { return 0 }\n return f(n-1) }\nf(900)", "run", "raise", "callOp*901;exitDefers,deferred,leave,defersDone*901"},
+	{"legit-defer-inside-recursion-900-on-thread", "func g(x) { return x }\nfunc f(n) { defer g(n)\n if n <= 0 { return 0 }\n return f(n-1) }\nspawn(f, 900).wait()", "thread", "raise", "hostCall*1;callOp*900;exitDefers,deferred,leave,defersDone*901"},
 }
 
 func (c *c03Run) recursionCases(n int) {
 	e := c.e
 	rng := e.Rng.Fork()
-	submit := func(kind, shape, entry, observe, src, ops string, pureDefer bool, rank int) {
+	submit := func(kind, shape, entry, observe, src, ops string, rank int) {
 		mode, how, mEntry := "script", "risor.Eval with risor.WithConcurrency()", "run"
 		switch entry {
 		case "call-entry":
@@ -247,17 +277,14 @@ func (c *c03Run) recursionCases(n int) {
 		c.small.submit(c03Req{Mode: mode, Opt: "conc", Src: hex.EncodeToString([]byte(src)), N: 20000}, 90*time.Second, func(res c03Result) {
 			e.R.H("recursion_links", shape)
 			e.R.H("recursion_entry", entry)
-			finding := ""
-			if pureDefer {
-				finding = "C03-defer-recursion-stack-overflow"
-			}
-			c.judgeEntered(key, mEntry, "nest "+ops, observe, rep, finding, res)
+			// no finding is attributed to a death in this stream since the repair of
+			// C03-defer-recursion-stack-overflow: the model never says killed (C03_partial_native)
+			c.judgeEntered(key, mEntry, "nest "+ops, observe, rep, "", res)
 		})
 	}
 	for i, d := range c03RecDirected {
 		entry := d.entry
-		pure := strings.HasPrefix(d.name, "defer-self") || d.name == "defer-pair"
-		submit("directed:"+d.name, d.name, entry, d.observe, d.src, d.ops, pure, 200000+i)
+		submit("directed:"+d.name, d.name, entry, d.observe, d.src, d.ops, 200000+i)
 	}
 	// the same inside module bodies: every import claims a frame and re-enters vm.eval as well
 	chain := func(inner string) map[string]string {
@@ -279,11 +306,7 @@ func (c *c03Run) recursionCases(n int) {
 		c.small.submit(c03Req{Mode: "importscript", Opt: string(b), Src: hex.EncodeToString([]byte(src)), N: 20000}, 90*time.Second, func(res c03Result) {
 			e.R.H("recursion_links", d.name)
 			e.R.H("recursion_entry", "import-chain")
-			finding := ""
-			if strings.HasPrefix(d.name, "defer-self") {
-				finding = "C03-defer-recursion-stack-overflow"
-			}
-			c.judgeEntered(key, "run", "nest "+d.ops, "raise", rep, finding, res)
+			c.judgeEntered(key, "run", "nest "+d.ops, "raise", rep, "", res)
 		})
 	}
 	for i := 0; i < n; i++ {
@@ -297,7 +320,10 @@ func (c *c03Run) recursionCases(n int) {
 			dk = fmt.Sprintf("depth=%d", rc.depth)
 		}
 		e.R.H("recursion_depth", strings.SplitN(dk, "=", 2)[0])
-		submit(dk, rc.shape(), rc.entry, observe, rc.src, rc.ops, rc.pureDefer && rc.depth < 0, 210000+i)
+		if rc.pureDefer {
+			e.R.H("recursion_depth", "through defer alone: "+strings.SplitN(dk, "=", 2)[0])
+		}
+		submit(dk, rc.shape(), rc.entry, observe, rc.src, rc.ops, 210000+i)
 	}
 }
 
@@ -718,14 +744,16 @@ func (c *c03Run) threadDeathF(key string, d *c03Death, finding string) {
 		d.Kind, d.Exit, c03_short(strings.TrimSpace(tail), 300), gor), finding)
 }
 
-// judgeEntered compares one case with a model reply `value | error <why> | killed <why>` already
-// obtained (what the body does under that entry point).  finding: the known finding a death is
-// attributed to when the MODEL says killed too and the child died of stack exhaustion.
+// judgeEntered compares one case with a model reply `value | error <why> | raised <why> |
+// killed <why>` already obtained (what the body does under that entry point; error = a Go panic
+// that came back as `panic: …`, raised = the ordinary evaluation error `… max call depth of 1024
+// exceeded` of vm.callFunction).  finding: the known finding a death is attributed to when the
+// MODEL says killed too and the child died of stack exhaustion.
 func (c *c03Run) judgeEntered(key, entry, body, observe string, rep []string, finding string, res c03Result) {
 	e := c.e
 	e.R.Case(key, true)
 	model := rep[0]
-	if model != "value" && model != "error" && model != "killed" {
+	if model != "value" && model != "error" && model != "raised" && model != "killed" {
 		e.R.Mismatch(key, body, strings.Join(rep, " "), "oracle refused the request")
 		return
 	}
@@ -750,6 +778,8 @@ func (c *c03Run) judgeEntered(key, entry, body, observe string, rep []string, fi
 			msg = r.EvalMsg + r.CompMsg
 		case observe == "raise" && r.Eval == "err" && c03IsGoPanicMsg(r.EvalMsg):
 			goOut = "error"
+		case observe == "raise" && r.Eval == "err" && strings.Contains(r.EvalMsg, "max call depth of 1024 exceeded"):
+			goOut = "raised"
 		case observe == "raise" && r.Eval == "err":
 			goOut = "other-error"
 		case observe == "none":
@@ -761,6 +791,14 @@ func (c *c03Run) judgeEntered(key, entry, body, observe string, rep []string, fi
 	want := model
 	if observe == "none" && model != "killed" {
 		want = "alive"
+	}
+	// `raised`: vm.callFunction RETURNED the max-call-depth error.  It is an errz.EvalError, which
+	// `try` hands on — unless a builtin in between (call, …) has re-created it as a plain error
+	// from its text.  What a script's own `try` does with an ordinary error is the script's
+	// semantics, not modelled here: the evaluation may then end with a value.
+	if model == "raised" && goOut == "value" && strings.Contains(key, "try(") {
+		e.R.H("entered_outcome", entry+" nest: the max-call-depth error was handled by the script's own try (accepted)")
+		want = "value"
 	}
 	e.R.H("entered_outcome", entry+" "+strings.SplitN(body, " ", 2)[0]+" observe="+observe+": "+goOut)
 	if goOut == "killed" {
@@ -775,7 +813,7 @@ func (c *c03Run) judgeEntered(key, entry, body, observe string, rep []string, fi
 	}
 	if goOut != want {
 		e.R.Mismatch(key, goOut+" "+c03_short(msg, 160), strings.Join(rep, " "),
-			"outcome under an entry point (value = returned, error = the Go panic came back as an error `panic: …`, killed = process terminated)")
+			"outcome under an entry point (value = returned, error = the Go panic came back as an error `panic: …`, raised = the evaluation error `max call depth of 1024 exceeded`, killed = process terminated)")
 	}
 }
 
